@@ -668,3 +668,44 @@ def flatten(fn, depth: int = MAX_DEPTH, select=None):
     out = Function(module=fn.module, qualname=fn.qualname, node=node, cls=fn.cls)
     out.flattened = fl.count  # type: ignore[attr-defined]
     return out
+
+
+def inline_module_constants(fn):
+    """A copy of Function `fn` in which reads of module-level string constants (`_REGISTRY_FILENAME = ".exception_registry.json"`, bound
+    once, to a literal) are replaced by the literal - so that rules which recognise a file by its name keep recognising it after the name
+    was given a constant.  Returns `fn` itself when nothing was replaced."""
+    from sa.model import Function, set_parents
+
+    mod = fn.module
+    consts: Dict[str, ast.Constant] = {}
+    counts: Dict[str, int] = {}
+    for st in mod.tree.body:
+        tg = st.targets[0] if isinstance(st, ast.Assign) and len(st.targets) == 1 else getattr(st, "target", None) if isinstance(st, ast.AnnAssign) else None
+        if isinstance(tg, ast.Name):
+            counts[tg.id] = counts.get(tg.id, 0) + 1
+            v = getattr(st, "value", None)
+            if isinstance(v, ast.Constant) and isinstance(v.value, str):
+                consts[tg.id] = v
+    consts = {k: v for k, v in consts.items() if counts.get(k) == 1}
+    if not consts:
+        return fn
+    local_stores = {n.id for n in ast.walk(fn.node) if isinstance(n, ast.Name) and isinstance(n.ctx, ast.Store)} | {a.arg for a in ast.walk(fn.node) if isinstance(a, ast.arg)}
+    changed = False
+
+    class S(ast.NodeTransformer):
+        def visit_Name(self, n: ast.Name):  # noqa: N802
+            nonlocal changed
+            if isinstance(n.ctx, ast.Load) and n.id in consts and n.id not in local_stores:
+                changed = True
+                return ast.copy_location(ast.Constant(value=consts[n.id].value), n)
+            return n
+
+    node = S().visit(clone(fn.node))
+    if not changed:
+        return fn
+    ast.fix_missing_locations(node)
+    set_parents(node)
+    out = Function(module=fn.module, qualname=fn.qualname, node=node, cls=fn.cls)
+    if hasattr(fn, "flattened"):
+        out.flattened = fn.flattened  # type: ignore[attr-defined]
+    return out
